@@ -78,3 +78,31 @@ OPTIONAL_FORMS = [
     'var v = func(a, b int,) (int,) { return a }', 'var v = [...]int{1, 2,}', 'var v = struct{ a, b int }{1, 2,}', 'var v *Pair[int, string,]', 'var v []Pair[int, string,]',
     'var v map[Pair[int, string,]]G[int,]', 'var v chan Pair[int, string,]', 'var v func(Pair[int, string,]) G[int,]',
 ]
+
+
+# forms that raise and lower the nesting level (type arguments, literals, calls, function literals, conversions,
+# assertions), used as the first clause of a control header; what follows the clause must be read at the header's
+# level: `ok {} {}` is a condition, a body and then a syntax error — never a composite literal `ok{}` with body `{}` —
+# and a composite literal after the statement must still be one
+HEADER_FORMS = [
+    'x.(G[int,])', 'x.(Pair[int, string,])', 'x.(G[int])', 'x.(func(Pair[A, B,],) G[C,])', 'g[int,](x)', 'g[int, string,](x)',
+    'a[i,]', 'f(a, b,)', '([]int{1, 2,})', '(T{1, 2,})', '(map[string]G[int,]{"a": {},})', 'func() G[int,] { return nil }()',
+    'func(a, b int,) (int,) { return a }(1, 2)', '(*Pair[int, string,])(p)', '[]G[int,](nil)', '<-(chan G[int,])(c)',
+    '(struct{ a G[int,] }{})', 'new(Pair[int, string,])', 'make([]G[int,], 1)', 'x.(interface{ M(a int,) (b int,) })',
+    'func() { for range ch {} }', 'func() T { return T{} }()', 'func() { type L[P any,] int }',
+]
+
+
+def header_probes():
+    out = []
+    for e in HEADER_FORMS:
+        for kw, sep in (('if', '; ok'), ('switch', '; ok'), ('for', '; ok;')):
+            out.append('package p\nfunc f() {\n\t%s v := %s%s {} {}\n}\n' % (kw, e, sep))
+            out.append('package p\nfunc f() {\n\t%s v := %s%s {}\n\tw := T{1}\n\t_ = w\n}\n' % (kw, e, sep))
+            out.append('package p\nfunc f() {\n\t%s v := %s%s {\n\t\tw := T{1}\n\t\t_ = w\n\t}\n}\n' % (kw, e, sep))
+        out.append('package p\nfunc f() {\n\tfor range %s {}\n\tw := T{1}\n\t_ = w\n}\n' % e)
+        out.append('package p\nfunc f() {\n\tfor range %s {} {}\n}\n' % e)
+        out.append('package p\nfunc f() {\n\tfor _, e := range %s {}\n\treturn T{}\n}\n' % e)
+        out.append('package p\nfunc f() {\n\tif f := func() T { _ = %s; return T{} }; f != nil {}\n}\n' % e)
+        out.append('package p\nfunc f() {\n\tif f := func() T { _ = %s; return T{} } {}\n}\n' % e)
+    return out
